@@ -40,7 +40,14 @@ class NoTransactionBand(torch.nn.Module):
         return self.clamp(prev, x - 0.125, x + 0.125)
 
 
-def build(c, N, T, H, stepwise, cost_pos, crit_name, eval_mode=False, band=None):
+class Squash(torch.nn.Module):
+    """a parameter-free preprocessing module"""
+
+    def forward(self, x):
+        return x * 0.5 + x.square() * 0.125
+
+
+def build(c, N, T, H, stepwise, cost_pos, crit_name, eval_mode=False, band=None, module_feature=False):
     from pfhedge import nn
     from pfhedge.nn.modules.loss import OCE
 
@@ -51,7 +58,15 @@ def build(c, N, T, H, stepwise, cost_pos, crit_name, eval_mode=False, band=None)
         for i, h in enumerate(hedge if hedge is not None else [deriv.ul()]):
             h.cost = api.real(c, "cost%d" % i, pos=True)
     feats = ["moneyness", "time_to_maturity"] + (["prev_hedge"] if stepwise else [])
+    if module_feature:
+        from pfhedge.features import ModuleOutput
+
+        with facades.real_torch():
+            feats = ["moneyness", ModuleOutput(Squash(), inputs=["time_to_maturity", "prev_hedge"])]
+        F0 = 3
     F = len(feats) + (H - 1 if stepwise else 0)
+    if module_feature:
+        F = F0
     if band is not None:
         F -= 1  # the layer sees the market features, the band is applied to prev_hedge
     W = api.tensor(c, "W", (H, F), lo=-1, hi=1)
@@ -91,18 +106,26 @@ def loss_of(c, hedger, deriv, hedge, crit_name):
     return hedger.criterion(hedger.compute_pl(deriv, hedge))
 
 
-def grad_case(N, T, H, stepwise, cost_pos, crit_name, eval_mode=False, sabotage=False, band=None):
+def grad_case(N, T, H, stepwise, cost_pos, crit_name, eval_mode=False, sabotage=False, band=None, module_feature=False, n_times=None):
     def fn(c):
         c.env["log10_decade"] = 0
         c.env["track_grad"] = True
-        deriv, hedge, hedger, params, crit = build(c, N, T, H, stepwise, cost_pos, crit_name, eval_mode, band)
+        deriv, hedge, hedger, params, crit = build(c, N, T, H, stepwise, cost_pos, crit_name, eval_mode, band, module_feature)
+        if n_times:
+            from harness.c06 import SimStub
+
+            sim = SimStub(c, deriv, N, T)
+            spots = []
         if sabotage:
             # negative control: a second forward hook that stores a detached previous output (what a careless edit of
             # save_prev_output would do); the gradient obligations below must then come back violated
             hedger.register_forward_hook(lambda m, i, o: m.register_buffer("prev_output", o.detach(), persistent=False))
         chk = c.control if sabotage else c.check
         with patched_bisect(c, check_preconditions=False):
-            loss = loss_of(c, hedger, deriv, hedge, crit_name)
+            if n_times:
+                loss = hedger.compute_loss(deriv, hedge=hedge, n_paths=N, n_times=n_times)
+            else:
+                loss = loss_of(c, hedger, deriv, hedge, crit_name)
             c.check("loss is a scalar", tuple(loss.shape) == ())
             c.check("loss requires grad", bool(loss.requires_grad))
             loss.backward()
@@ -125,6 +148,16 @@ def grad_case(N, T, H, stepwise, cost_pos, crit_name, eval_mode=False, sabotage=
                         chk("%sd loss / d param%d[%d]: autograd == true derivative" % ("control:" if sabotage else "", pi, j), api.eq(api.SymReal(auto), api.SymReal(true)))
             else:
                 h = 1e-6
+
+                def value():
+                    if not n_times:
+                        return loss_of(c, hedger, deriv, hedge, crit_name).item()
+                    tot = 0.0
+                    for sp in sim.spots[:n_times]:
+                        deriv.ul().register_buffer("spot", sp)
+                        tot += loss_of(c, hedger, deriv, hedge, crit_name).item()
+                    return tot / n_times
+
                 for pi, p in enumerate(params):
                     g = p.grad
                     c.check("param %d has a gradient" % pi, g is not None)
@@ -135,9 +168,9 @@ def grad_case(N, T, H, stepwise, cost_pos, crit_name, eval_mode=False, sabotage=
                         old = flat[j].item()
                         with torch.no_grad():
                             flat[j] = old + h
-                            lp = loss_of(c, hedger, deriv, hedge, crit_name).item()
+                            lp = value()
                             flat[j] = old - h
-                            lm = loss_of(c, hedger, deriv, hedge, crit_name).item()
+                            lm = value()
                             flat[j] = old
                         fd = (lp - lm) / (2 * h)
                         if sabotage and (pi, j) != (0, 0):
@@ -190,6 +223,10 @@ def cases():
     for band in ("hard", "leaky"):
         cs.append(Case("grad/mse/no-transaction-band/%s" % band, grad_case(2, 3, 1, True, False, "mse", band=band), encodes=enc + ("pfhedge.nn.Clamp/LeakyClamp", "leaky_clamp"),
                        families=fam, timeout=120, max_paths=16, bounds="N=2 T=3, band model: prev_hedge clamped around a trainable centre"))
+    cs.append(Case("grad/es/module-feature-over-prev_hedge", grad_case(2, 3, 1, True, False, "es", module_feature=True), encodes=enc + ("ModuleOutput.get/forward",),
+                   families=fam, timeout=120, max_paths=16, bounds="N=2 T=3, a parameter-free ModuleOutput feature whose inputs include prev_hedge"))
+    cs.append(Case("grad/entropic/compute_loss-n_times=2", grad_case(2, 3, 1, True, False, "entropic", n_times=2), encodes=enc + ("ensemble_mean",),
+                   families=fam, timeout=120, max_paths=16, bounds="gradient of compute_loss(n_times=2): mean over two simulated batches"))
     cs.append(Case("control/detached-prev-output", grad_case(2, 3, 1, True, False, "mse", sabotage=True), encodes=enc, families=fam, timeout=120, max_paths=16,
                    bounds="negative control", batch=False))
     cs.append(Case("nograd/es", nograd_case("es"), encodes=enc, families=fam, timeout=60, bounds="compute_loss / price grad flags"))
